@@ -25,7 +25,8 @@ def build_files(lines, cuts):
         top = [c for c in inside if not any(o is not c and o["a"] <= c["a"] and c["b"] <= o["b"] for o in inside)]
         for c in sorted(top, key=lambda c: c["a"]):
             out.extend(lines[pos:c["a"]])
-            out.append(" INCLUDE %s\n" % c["path"])
+            for _ in range(max(1, c.get("repeat", 1))):
+                out.append(" INCLUDE %s\n" % c["path"])     # the same file may be included more than once
             nested = [o for o in inside if o is not c and c["a"] <= o["a"] and o["b"] <= c["b"]]
             files[c["path"]] = "".join(region(c["a"], c["b"], nested))
             pos = c["b"]
@@ -40,6 +41,21 @@ def build_files(lines, cuts):
             valid.append(c)
     files["main.asm"] = "".join(region(0, len(lines), valid))
     return files, valid
+
+
+def textual_expand(files, path, depth=0):
+    """The property's own definition: replace every INCLUDE line by the lines of the named file, recursively.
+    Paths are relative to the working directory.  (Only used on layouts without a missing file or a cycle.)"""
+    out = []
+    if depth > 8:
+        raise ValueError("include depth")
+    for line in files[path].splitlines(keepends=True):
+        parts = line.split(";")[0].split()
+        if len(parts) == 2 and parts[0].upper() == "INCLUDE" and line[:1] in " \t":
+            out.extend(textual_expand(files, parts[1], depth + 1))
+        else:
+            out.append(line)
+    return out
 
 
 class C19(object):
@@ -86,13 +102,31 @@ class C19(object):
             b = rng.randint(a + 1, len(lines))
             cuts.append({"a": a, "b": b, "path": paths[j]})
         fault = rng.weighted([(None, 70), ("missing", 12), ("self", 5), ("cycle2", 5), ("cycle3", 4), ("cycle_prefix", 4)])
-        return {"lines": lines, "cuts": cuts, "fault": fault, "note": note, "victim": rng.below(3)}
+        # the same (preferably label-free) file included twice; other files lying around next to an including file
+        for c in cuts:
+            label_free = all(l[:1] in " \t" for l in lines[c["a"]:c["b"]])
+            if rng.chance(0.35 if label_free else 0.05):
+                c["repeat"] = 2
+        return {"lines": lines, "cuts": cuts, "fault": fault, "note": note, "victim": rng.below(3), "decoys": rng.chance(0.4)}
 
     def layout(self, case):
         files, valid = build_files(case["lines"], case["cuts"])
         fault = case.get("fault")
         included = sorted(p for p in files if p != "main.asm")
         fired = None
+        if case.get("decoys"):
+            # pre-existing file state: for an INCLUDE written inside a file that lives in a sub-directory, a different
+            # file of the same name lies next to the including file.  Paths are relative to the working directory, so
+            # it must be ignored.
+            for parent in sorted(files):
+                d = parent.rsplit("/", 1)[0] if "/" in parent else ""
+                if not d:
+                    continue
+                for line in files[parent].splitlines():
+                    parts = line.split()
+                    if len(parts) == 2 and parts[0] == "INCLUDE" and (d + "/" + parts[1]) not in files:
+                        files[d + "/" + parts[1]] = " FCB $EE,$EE,$EE\nDECOY EQU $DEC0\n"
+                        self.last_decoys = getattr(self, "last_decoys", 0) + 1
         if fault == "missing" and included:
             victim = included[case.get("victim", 0) % len(included)]
             del files[victim]
@@ -151,7 +185,12 @@ class C19(object):
             outcome = "fault:" + ("crash" if ra.crashed else str(ra.status))
             res.digest = wa.log.digest()
         else:
-            wb, rb = self.invoke({"main.asm": "".join(case["lines"])}, total)
+            spliced = "".join(textual_expand(files, "main.asm"))
+            if any(c.get("repeat", 1) > 1 for c in valid):
+                res.stats["probe:file_included_twice"] += 1
+            if len(files) > 1 + len(valid):
+                res.stats["fault:decoy_file_next_to_including_file"] += 1
+            wb, rb = self.invoke({"main.asm": spliced}, total + spliced.count("\n"))
             res.clock += rb.steps
             res.steps += 1
             if valid:
